@@ -12,6 +12,7 @@ import (
 	"strings"
 	"time"
 
+	"github.com/internetarchive/Zeno/internal/pkg/controler/pause"
 	"github.com/internetarchive/Zeno/internal/verif/lib/world"
 	"github.com/internetarchive/Zeno/internal/verif/vrt/hkit"
 	"github.com/internetarchive/Zeno/internal/verif/vrt/vsched"
@@ -27,10 +28,14 @@ type scen struct {
 	MaxHops  int    `json:"max_hops"`
 	Workers  int    `json:"workers"`
 	P        int    `json:"p"`
+	// Pause: a controller pauses and resumes the pipeline once; both calls are threads of lowest priority (by default
+	// they come when the run is over), a deviation puts the pause at any step - e.g. while the page's outlinks are
+	// being handed downstream one by one
+	Pause bool `json:"pause,omitempty"`
 }
 
 func (s *scen) name() string {
-	return fmt.Sprintf("%s hops0=%d max-hops=%d w%d", s.Shape, s.SeedHops, s.MaxHops, s.Workers)
+	return fmt.Sprintf("%s hops0=%d max-hops=%d w%d", s.Shape, s.SeedHops, s.MaxHops, s.Workers) + map[bool]string{true: " pause-resume", false: ""}[s.Pause]
 }
 
 // the page that carries the anchors, and the seed that leads to it
@@ -66,6 +71,14 @@ func scenario(s *scen) *vsched.Scenario {
 	}
 	sc.Body = func() {
 		w.Start()
+		if s.Pause {
+			go func() {
+				vsched.Point("h:pause requested", nil)
+				pause.Pause("verif: operator")
+				vsched.Point("h:resume requested", nil)
+				pause.Resume()
+			}()
+		}
 		if err := w.InsertHops("seed0", def.Seeds[0], s.SeedHops); err != nil {
 			panic(err)
 		}
@@ -152,6 +165,10 @@ func scenarios(tier string) []scen {
 				out = append(out, scen{Shape: sh, SeedHops: h[0], MaxHops: h[1], Workers: w, P: P})
 			}
 		}
+	}
+	// a pause/resume cycle placed anywhere in the run (one deviation more than the tier's bound)
+	for _, w := range []int{1, 2} {
+		out = append(out, scen{Shape: "direct", SeedHops: 0, MaxHops: 1, Workers: w, P: P + 1, Pause: true})
 	}
 	return out
 }
